@@ -26,6 +26,7 @@ import (
 	"time"
 
 	"github.com/golang-jwt/jwt"
+	"github.com/megaease/easegress/pkg/api"
 	"github.com/megaease/easegress/pkg/cluster"
 	"github.com/megaease/easegress/pkg/context"
 	"github.com/megaease/easegress/pkg/logger"
@@ -103,6 +104,9 @@ func vfBootEnv() (env *vfEnvT, err error) {
 		time.Sleep(50 * time.Millisecond)
 	}
 	super := supervisor.MustNew(opt, cls)
+	// the admin API server consumes api.RegisterAPIs notifications (MQTTProxy registers its
+	// endpoints at Init and would block forever without it), as in a real easegress-server process
+	_ = api.MustNewServer(opt, cls, super, nil)
 
 	env = &vfEnvT{super: super, cls: cls, dir: abs}
 
